@@ -1,8 +1,9 @@
 import Hertz.Driver.Core
 import Hertz.Model.Http1.Resp
+import Hertz.Model.Http1.RespMsg
 import Hertz.Spec.Resp
 namespace Hertz.Driver.C04
-open Hertz Hertz.Driver Hertz.H1.Resp
+open Hertz Hertz.Driver Hertz.H1.Resp Hertz.Gen.Str
 
 structure ReqTok where
   isHead : Bool
@@ -17,6 +18,13 @@ structure Case where
   decided the `Connection` header; `closeAtHeader` = the handler had already asked to close -/
   earlyHeader : Bool := false
   closeAtHeader : Bool := false
+  /-- the framing fields of the response header as the handler's calls leave them (`contentLength`,
+  `clBytes`, `Transfer-Encoding` in `h`; every other field of this record is unused): followed through
+  `SetBodyStream` (→ `SetContentLength`, a no-op on 1xx/204/304) and `Header.Set("Content-Length", v)`
+  (→ `setLengthHeader`); frozen once the hijacked writer has sent the header block -/
+  hs : HW.RespHdr := { statusLine := [], server := [], date := none, contentType := [], contentLength := 0,
+                       contentEncoding := [], clBytes := [], h := [], trailer := [], cookies := [], connClose := false }
+  frozen : Bool := false
 
 def splitOnStr (sep : String) : List String → List (List String)
   | [] => [[]]
@@ -33,8 +41,12 @@ def parseWOps (s : String) : Option (List WOp) :=
   if s.isEmpty then some [] else
   (s.splitOn ",").mapM (fun o => if o == "f" then some WOp.flush else (hx (o.drop 1).toString).map WOp.write)
 
+/-- `ResponseHeader.SetContentLength(d)` on the tracked framing fields -/
+def setCL (r : HW.RespHdr) (status : Nat) (d : Int) : HW.RespHdr :=
+  if mustSkipCL status then r else withFraming r (if d ≥ 0 then .cl d.toNat else .chunked)
+
 /-- fold the program tokens of one request (same semantics as `runProg` in harness/c04.go) -/
-def parseCase (toks : List String) : Option Case := do
+def parseCase0 (toks : List String) : Option Case := do
   match toks with
   | [] => none
   | m :: rest =>
@@ -58,15 +70,49 @@ def parseCase (toks : List String) : Option Case := do
         else if op == "CW" then
           let ws ← parseWOps b
           let early := ws.any (fun o => match o with | .write _ => true | .flush => false)
-          pure { c with prog := { c.prog with body := .writer ws }, earlyHeader := early, closeAtHeader := c.respClose }
+          pure { c with prog := { c.prog with body := .writer ws }, earlyHeader := early, closeAtHeader := c.respClose,
+                        frozen := c.frozen || early }
         else none
       | ["CW"] => pure { c with prog := { c.prog with body := .writer [] } }
-      | ["BS", n, ps] => pure { c with prog := { c.prog with body := .stream n.toInt! (← pieces ps) } }
-      | ["LR", n, ps] => pure { c with prog := { c.prog with body := .limited n.toNat! (← pieces ps) } }
+      | ["BS", n, ps] =>
+        -- `SetBodyStream(r, n)` calls `Header.SetContentLength(n)` (no-op on 1xx/204/304 at that moment)
+        let d := n.toInt!
+        pure { c with prog := { c.prog with body := .stream d (← pieces ps) },
+                      hs := if c.frozen then c.hs else setCL c.hs c.prog.status d }
+      | ["LR", n, ps] =>
+        pure { c with prog := { c.prog with body := .limited n.toNat! (← pieces ps) },
+                      hs := if c.frozen then c.hs else setCL c.hs c.prog.status (-1) }
       | ["TR", k, v] => pure { c with prog := { c.prog with trailers := c.prog.trailers ++ [(← hx k, ← hx v)] } }
       | ["CC"] => pure { c with respClose := true }
-      | ["H", _, _] => pure c
+      | ["H", k, v] =>
+        -- `Header.Set(k, v)`: only `Content-Length` touches the framing fields (`setSpecialHeader`);
+        -- `Transfer-Encoding` is ignored ("managed automatically"); anything else lands in `h` (taken from the dump)
+        let k ← hx k
+        let v ← hx v
+        if !c.frozen && Spec.Resp.lowerAll k == Spec.Resp.lowerAll strContentLength then
+          pure { c with hs := setLengthHeader c.hs v }
+        else pure c
       | _ => none) init
+
+/-- the program as the writer sees it: `writeBodyStream` takes the length to send from
+`Header.ContentLength()`, so a `Content-Length` the handler set after `SetBodyStream` replaces the
+declared length of the stream (a stream of unknown length becomes a fixed-size body, an
+`io.LimitedReader` is read through `WriteBodyFixedSize`); byte bodies and the hijacked writer set
+their own framing at write time -/
+def effProg (c : Case) : Prog :=
+  let cl := c.hs.contentLength
+  match c.prog.body with
+  | .stream _ reads => { c.prog with body := .stream (if cl ≥ 0 then cl else -1) reads }
+  | .limited l reads => if cl ≥ 0 then { c.prog with body := .stream cl [takeStream l reads] } else c.prog
+  | _ => c.prog
+
+def parseCase (toks : List String) : Option Case :=
+  (parseCase0 toks).map (fun c => { c with prog := effProg c })
+
+/-- what a header state announces by itself (`Declares` of Proofs/RespMessage.lean, computed) -/
+def declaredOf (r : HW.RespHdr) : Spec.Resp.Framing :=
+  if !r.clBytes.isEmpty then (match Spec.Resp.parseDec r.clBytes with | some n => .cl n | none => .none)
+  else if r.h.any (fun kv => kv.1 == strTransferEncoding) then .chunked else .none
 
 def connOf (fs : List (Bytes × Bytes)) : ConnHdr :=
   match fs.find? (fun kv => Spec.Resp.lowerAll kv.1 == "connection".toUTF8.toList) with
@@ -104,13 +150,110 @@ def expected : List Case → List Obs
     let closes := c.req.reqClose || c.respClose
     let conn := if c.earlyHeader then (if c.closeAtHeader then ConnHdr.close else .absent)
                 else connHeader c.req.reqClose c.respClose c.req.http11
-    let o : Obs := { status := c.prog.status, framing := mFramingTok f.framing, raw := f.wire, conn }
+    -- the reader sees the writer's framing if the writer set one, else what the handler's header declares
+    let o : Obs := { status := c.prog.status, framing := framingTok (effFraming (declaredOf c.hs) f.framing), raw := f.wire, conn }
     if f.failed then [o] else
     if closes then [o] else o :: expected cs
 
 def obsTokens (l : List Obs) : List String :=
   l.flatMap (fun o => [toString o.status, o.framing, encHex o.raw,
     match o.conn with | .close => "close" | .keepAlive => "keep-alive" | .absent => "-"])
+
+/-! ### the whole message against the bytes written -/
+
+def takePairs : Nat → List String → Option (List (Bytes × Bytes) × List String)
+  | 0, t => some ([], t)
+  | n + 1, k :: v :: t => do
+    let k ← hx k; let v ← hx v
+    let (r, rest) ← takePairs n t
+    pure ((k, v) :: r, rest)
+  | _, _ => none
+
+def takeN : Nat → List String → Option (List Bytes × List String)
+  | 0, t => some ([], t)
+  | n + 1, k :: t => do
+    let k ← hx k
+    let (r, rest) ← takeN n t
+    pure (k :: r, rest)
+  | _, _ => none
+
+/-- the header state dumped by the harness when the writer takes over (`respHdrDump` in harness/c04.go) -/
+structure Dump where
+  reason : Bytes
+  ctset : Bool
+  /-- `date` = the harness's `currentDate()`, `contentType` = `h.ContentType()` (default resolved) -/
+  r : HW.RespHdr
+
+def parseDump : List String → Option (Dump × List String)
+  | reason :: sv :: ndd :: date :: ct :: ctset :: cl :: ce :: clb :: cc :: nh :: t => do
+    let (h, t) ← takePairs nh.toNat! t
+    match t with
+    | ntr :: t =>
+      let (tr, t) ← takeN ntr.toNat! t
+      match t with
+      | nc :: t =>
+        let (ck, t) ← takePairs nc.toNat! t
+        let dateB ← hx date
+        pure ({ reason := ← hx reason, ctset := ctset == "1",
+                r := { statusLine := [], server := ← hx sv, date := (if ndd == "1" then none else some dateB),
+                       contentType := ← hx ct, contentLength := cl.toInt!, contentEncoding := ← hx ce, clBytes := ← hx clb,
+                       h, trailer := tr, cookies := ck.map (·.2), connClose := cc == "1" } }, t)
+      | _ => none
+    | _ => none
+  | _ => none
+
+def parseDumps : Nat → List String → Option (List Dump)
+  | 0, _ => some []
+  | n + 1, t => do
+    let (d, t) ← parseDump t
+    pure (d :: (← parseDumps n t))
+
+def crlfDate : Bytes := strCRLF ++ strDate ++ strColonSpace
+
+/-- the value of the first `Date: ` line in `s` (Go's time formatting is not modelled; the value is
+taken from the response itself) -/
+def findDate : Bytes → Option Bytes
+  | [] => none
+  | c :: t => if crlfDate.isPrefixOf (c :: t) then some (((c :: t).drop crlfDate.length).takeWhile (· != 13)) else findDate t
+
+/-- the header state `resp.Write` / the hijacked writer starts from: the dump, the status line of the
+program's status, the `Connection` decision `Server.Serve` makes after the handler (not when the
+hijacked writer has already sent the header block), the `Date` of the response itself, and the
+`Content-Type` line only `if h.ContentLength() != 0 || len(h.contentType) > 0` (as the C05 driver does) -/
+def hdrOf (c : Case) (d : Dump) (wireDate : Option Bytes) : HW.RespHdr :=
+  let closes := c.req.reqClose || c.respClose
+  let r := d.r
+  let r := { r with statusLine := statusLineOf c.prog.status d.reason,
+                    date := r.date.map (fun x => wireDate.getD x) }
+  let r := if c.earlyHeader then r
+           else if closes then { r with connClose := true }
+           else if !c.req.http11 then { r with connClose := false, h := setArgKV r.h strConnection strKeepAlive }
+           else r
+  let finalCL : Int := match (frame c.prog c.req.isHead).framing with
+    | .none => r.contentLength | .cl n => n | .chunked => -1
+  { r with contentType := if d.ctset || finalCL != 0 then r.contentType else [] }
+
+/-- the framing fields the model predicts for the header state (`Case.hs`) against the dump -/
+def hdrAgrees (c : Case) (d : Dump) : Bool :=
+  let te (h : List (Bytes × Bytes)) := (h.filter (fun kv => Spec.Resp.lowerAll kv.1 == Spec.Resp.lowerAll strTransferEncoding))
+  c.hs.contentLength == d.r.contentLength && c.hs.clBytes == d.r.clBytes && te c.hs.h == te d.r.h
+
+/-- the model's messages for the sequence (same sequencing as `expected`): the concatenation of the
+messages before the first failed one, whether a failed one ended the sequence, whether the predicted
+framing fields agree with every dump used; `none` = a dump is missing -/
+def modelWire : List Case → List Dump → Bytes → Option (Bytes × Bool × Bool)
+  | [], _, _ => some ([], false, true)
+  | _ :: _, [], _ => none
+  | c :: cs, d :: ds, rest =>
+    let f := frame c.prog c.req.isHead
+    let ok := hdrAgrees c d
+    if f.failed then some ([], true, ok) else
+    let m := message (hdrOf c d (findDate rest)) c.prog c.req.isHead
+    if c.req.reqClose || c.respClose then some (m, false, ok) else
+    (modelWire cs ds (rest.drop m.length)).map (fun r => (m ++ r.1, r.2.1, ok && r.2.2))
+
+def dumpTokens (r : HW.RespHdr) : List String :=
+  [toString r.contentLength, encHex r.clBytes] ++ (r.h.filter (fun kv => kv.1 == strTransferEncoding)).map (fun kv => encHex kv.2)
 
 def handle : Handler
   | "respw" :: toks, impl => do
@@ -120,12 +263,26 @@ def handle : Handler
     let anyFailed := cases.any (fun c => (frame c.prog c.req.isHead).failed)
     let dec := decodeAll cases wire []
     -- net/http's opinion, as printed by the harness: status, content-length, body per response
-    let nh := (impl.dropWhile (· != "N")).drop 2
+    let nh := ((impl.dropWhile (· != "N")).drop 2).takeWhile (· != "D")
+    -- the header states dumped by the harness, one per handler invocation
+    let dtoks := impl.dropWhile (· != "D")
+    let dumps := (match dtoks with
+      | _ :: k :: t => parseDumps k.toNat! t
+      | _ => none).getD []
+    -- the whole message (header block + body) of every response against the bytes written: equal, or
+    -- (when the model says a writer fails mid-message) the messages before that one are a prefix
+    let mw := modelWire cases dumps wire
+    let (msgAgree, msgOut) : Bool × List String := match mw with
+      | none => (false, ["MSG", "NODUMP"])
+      | some (m, failed, hdrOk) =>
+        if !hdrOk then (false, "HDR" :: cases.flatMap (fun c => dumpTokens c.hs))
+        else if (if failed then m.isPrefixOf wire else m == wire) then (true, [])
+        else (false, ["MSG", encHex m])
     match dec with
     | none =>
       -- not decodable by the strict reader: acceptable only when the model says the writer failed mid-message
-      pure { out := (if anyFailed then impl else "MODEL" :: obsTokens exp), spec := anyFailed, specNote := "output is not a sequence of well-formed responses",
-             tag := "respw:undecodable" }
+      pure { out := msgOut ++ (if anyFailed then impl else "MODEL" :: obsTokens exp), spec := anyFailed, specNote := "output is not a sequence of well-formed responses",
+             tag := "respw:undecodable:" ++ boolTok msgAgree }
     | some (obs, msgs, rest) =>
       let rec nhOk : List Spec.Resp.Msg → List String → Bool
         | [], _ => true
@@ -136,10 +293,14 @@ def handle : Handler
       -- the model's frames are compared with what the strict reader makes of the implementation's bytes;
       -- when the model says the writer fails mid-message only the messages before it are compared
       let agree := if anyFailed then (obs.take (exp.length - 1) == exp.take (exp.length - 1)) else obs == exp
-      pure { out := (if agree then impl else "MODEL" :: obsTokens exp ++ "DECODED" :: obsTokens obs),
+      let declared := cases.any (fun c => !c.hs.clBytes.isEmpty &&
+        (match c.prog.body with | .bytes _ => false | .writer _ => false | _ => true) ||
+        (match (frame c.prog c.req.isHead).framing with | .none => declaredOf c.hs != .none | _ => false))
+      pure { out := msgOut ++ (if agree then impl else "MODEL" :: obsTokens exp ++ "DECODED" :: obsTokens obs),
              spec := specOk, specNote := "strict reader and net/http decode the same messages; nothing left over; bodiless statuses carry no body",
              tag := "respw:" ++ toString (min obs.length 4) ++ ":" ++ (obs.getLast?.map (·.framing.take 2 |>.toString)).getD "-" ++
-                    ":" ++ boolTok anyFailed ++ boolTok (cases.any (·.req.isHead)) ++ boolTok (cases.any (fun c => Spec.Resp.noBodyStatus c.prog.status)) }
+                    ":" ++ boolTok anyFailed ++ boolTok (cases.any (·.req.isHead)) ++ boolTok (cases.any (fun c => Spec.Resp.noBodyStatus c.prog.status)) ++
+                    boolTok declared }
   | _, _ => none
 
 end Hertz.Driver.C04
